@@ -36,8 +36,12 @@ GET_INDEX_OF = 'csep.core.regions.CartesianGrid2D.get_index_of'
 BIN1D = 'csep.utils.calc.bin1d_vec'
 
 
+from contracts.regions import directed_lattices
+
+
 @contract
 class SpatialCounts:
+    directed = directed_lattices('grid_catalog')
     qualname = CATCLS + '.spatial_counts'
     case = 'Cartesian region (RI)'
     oracle = 'catalog_spatial_counts'
@@ -81,6 +85,7 @@ class SpatialCounts:
 
 @contract
 class SpatialEventProbability:
+    directed = directed_lattices('grid_catalog')
     qualname = CATCLS + '.spatial_event_probability'
     case = 'Cartesian region (RI)'
     oracle = 'catalog_spatial_event_probability'
@@ -290,10 +295,32 @@ def selection_chain(arr):
 def filter_case(name, stmts_spec, container, in_place):
     """stmts_spec: list of (attr, op); container in {'str','list','tuple'}"""
 
+    def directed_filter():
+        """concrete catalogs (events = [id, epoch ms, lat, lon, depth, magnitude]) with values on, just below and just above the
+        thresholds (conventions of rt/oracles_grid.catalog_filter); one statement per (attribute, operator) of this case"""
+        thr = {'magnitude': 4.5, 'latitude': 34.25, 'longitude': -118.5, 'depth': 10.0, 'origin_time': 1262304000000}
+        evs = []
+        k = 0
+        for dm in (-1e-9, 0.0, 1e-9, 0.5, -0.5):
+            for dt in (-1, 0, 1):
+                evs.append(['e%d' % k, thr['origin_time'] + dt + 1000 * k * (k % 2), thr['latitude'] + dm * (k % 3 == 0),
+                            thr['longitude'] + dm * (k % 3 == 1), thr['depth'] + dm * (k % 3 == 2), thr['magnitude'] + dm])
+                k += 1
+        stmts = []
+        for attr, op in stmts_spec:
+            if attr == 'datetime':
+                stmts.append('datetime %s 2010-01-01 00:00:00.0' % op)
+            else:
+                stmts.append('%s %s %r' % (attr, op, thr.get(attr, 1.0)))
+        fam = []
+        for evs_ in (evs, evs[::-1], evs[:1], []):
+            fam.append(('catalog_filter', dict(events=evs_, statements=stmts, container=container, in_place=in_place)))
+        return fam
+
     class FilterCase:
         qualname = CATCLS + '.filter'
         case = name
-        oracle = 'catalog_filter_replay'
+        directed = staticmethod(directed_filter)
         properties = ('C04',)
 
         def params(c):
